@@ -81,13 +81,14 @@ func (ds *dataStore) AppendRecord(rec *Record) (pos Position, err error) {
 	pos.ChunkID = ds.newHead
 	pos.Offset = currOffset
 	wrec.pos = pos
-	ds.chunks[ds.newHead].AppendRecord(wrec)
-	ds.wbufSize += size
-
+	// account for the value before the record becomes visible to the flusher,
+	// which frees it (and zeroes Cap) as soon as it has written it
 	if wrec.rec.Payload.Ver > 0 {
 		cmem.DBRL.FlushData.AddSizeAndCount(rec.Payload.CArray.Cap)
 		cmem.DBRL.SetData.SubSizeAndCount(rec.Payload.CArray.Cap)
 	}
+	ds.chunks[ds.newHead].AppendRecord(wrec)
+	ds.wbufSize += size
 
 	if cmem.DBRL.FlushData.Size > int64(Conf.FlushWake) {
 		WakeupFlush()
